@@ -169,7 +169,20 @@ def _quote_check_str(check_str):
     the legacy list-of-lists syntax are written such that the file loads back
     to the same rule.
     """
-    return jsonutils.dumps(check_str)
+    return _escape_non_ascii(jsonutils.dumps(check_str, ensure_ascii=False))
+
+
+def _escape_non_ascii(text):
+    """Spell everything outside printable ASCII as a backslash escape.
+
+    JSON's own ``\\uXXXX`` escapes write a character beyond the BMP as a
+    surrogate pair, which a YAML loader reads as two characters; YAML has
+    the eight digit form for these.
+    """
+    return ''.join(
+        c if ' ' <= c <= '~' else
+        ('\\u%04x' if ord(c) < 0x10000 else '\\U%08x') % ord(c)
+        for c in text)
 
 
 def _format_rule_default_yaml(default, include_help=True, comment_rule=True,
@@ -521,7 +534,7 @@ def _convert_policy_json_to_yaml(namespace, policy_file, output_file=None):
         yaml_format_rules.append(extra_rules_text)
     for file_rule, check_str in file_policies.items():
         rule_text = ('%(name)s: %(check_str)s\n' %
-                     {'name': jsonutils.dumps(file_rule),
+                     {'name': _quote_check_str(file_rule),
                       'check_str': _quote_check_str(check_str)})
         yaml_format_rules.append(rule_text)
 
